@@ -24,7 +24,8 @@ XF += [{"kind": "respell_targets", "style": st, "seed": 4} for st in ("abs", "do
 XF += [{"kind": "explicit_internal", "rate": 0.5, "seed": 1}, {"kind": "rewrite_slides", "how": "bool_words"}, {"kind": "rewrite_slides", "how": "strip_tblPr"},
        {"kind": "rewrite_slides", "how": "strip_cell_txBody"}, {"kind": "rewrite_charts", "how": "reverse_idx"}, {"kind": "rewrite_charts", "how": "date1904"},
        {"kind": "layout_logo", "k": 3, "seed": 1}, {"kind": "rewrite_slides", "how": "hover_links"},
-       {"kind": "rewrite_slides", "how": "optional_children"}, {"kind": "rewrite_charts", "how": "optional_children"}, {"kind": "big_blob", "size": 5000, "seed": 1}]
+       {"kind": "rewrite_slides", "how": "optional_children"}, {"kind": "rewrite_charts", "how": "optional_children"}, {"kind": "big_blob", "size": 5000, "seed": 1},
+       {"kind": "rewrite_charts", "how": "shift_order", "seed": 1}, {"kind": "rewrite_charts", "how": "reverse_repeated"}]
 XF += [{"kind": "respell_package_xml", "style": st, "seed": 2} for st in ("prefixed", "multiline", "utf16", "mixed")]
 SAME_SNAPSHOT = {"respell_rids", "respell_targets", "explicit_internal", "renumber", "respell_package_xml", "big_blob"}
 
